@@ -491,3 +491,18 @@ pub fn verif_find_object_from_internal_pointer<VM: VMBinding>(
     std::mem::forget(los);
     res
 }
+
+/// Verification hook: the large-object mark/nursery-bit transition.  `test_and_mark` reads only the
+/// `in_nursery_gc` field of the space, so it is driven on a space of which only that field is written.
+#[cfg(mmtk_verif)]
+pub fn verif_test_and_mark<VM: VMBinding>(
+    in_nursery_gc: bool,
+    object: ObjectReference,
+    value: u8,
+) -> bool {
+    let mut los = std::mem::MaybeUninit::<LargeObjectSpace<VM>>::uninit();
+    unsafe { std::ptr::addr_of_mut!((*los.as_mut_ptr()).in_nursery_gc).write(in_nursery_gc) };
+    let res = unsafe { &*los.as_ptr() }.test_and_mark(object, value);
+    std::mem::forget(los);
+    res
+}
